@@ -342,11 +342,17 @@ package state
 //@   ensures err == nil ==> result0 != nil && fresh(result0) && QV(result0) >= 0
 //@   note a clone of the cached account's active escrow balance (stored balances are valid quantities)
 
-//@ func StakeAccumulatorCache.CheckStakeClaims
+//@ func StakeAccumulatorCache.getAccount
 //@   trusted
-//@   modifies nothing
-//@   ensures (err == nil) == ufb("stakeClaimsCovered", c, addr)
-//@   note read-only: compares the entity's escrow balance with the sum of the thresholds of its recorded stake claims
+//@   modifies c.accounts
+//@   ensures (err == nil) == (result0 != nil)
+//@   note cached load of the account through the state accessor (the cache map is the only thing written)
+
+//@ func StakeAccumulatorCache.CheckStakeClaims
+//@   props C10 C14
+//@   requires c != nil
+//@   ensures-local err != nil && defined(acct) && acct != nil && staking.TotalClaimsOK(&acct.Escrow.StakeAccumulator, c.thresholds, nil) ==> err == staking.ErrInsufficientStake
+//@   note insufficient stake is reported as the sentinel staking.ErrInsufficientStake itself, not wrapped: the roothash and scheduler applications branch on the error's identity, and any other error from here stops block processing
 
 // ---- epoch transition helpers (C05) ----
 
